@@ -207,8 +207,49 @@ def simplify(body, max_rounds=40, max_blocks=4000):
     return total
 
 
+def _reaching_known(blocks, pr, start, var, limit=400):
+    """all definitions of `var` that reach the entry of block `start` are aggregates of one known variant -> that variant,
+    else None.  Backwards search over every path (loops included); a call that writes var, a mutable borrow of var, or
+    reaching the function entry without a definition make it unknown."""
+    work = [(p, var) for p in dict.fromkeys(pr[start])]
+    seen = set()
+    found = set()
+    n = 0
+    while work:
+        b, v = work.pop()
+        if (b, v) in seen:
+            continue
+        seen.add((b, v))
+        n += 1
+        if n > limit:
+            return None
+        bb = blocks[b]
+        t = bb["t"]
+        if t["k"] == "call" and t["dest"]["l"] == v:
+            return None
+        if t["k"] == "call":
+            # a call taking `&mut v` would need the borrow statement first, which _scan reports as unknown
+            pass
+        r = _scan(bb, len(bb["s"]), v)
+        if r[0] == "known":
+            found.add(r[1])
+            if len(found) > 1:
+                return None
+            continue
+        if r[0] == "unknown":
+            return None
+        v2 = r[1]
+        ps = list(dict.fromkeys(pr[b]))
+        if not ps:
+            return None        # function entry: an argument or an uninitialised local
+        for q in ps:
+            work.append((q, v2))
+    return next(iter(found)) if len(found) == 1 else None
+
+
 def _scan_chain(blocks, pr, p, var, limit=12):
-    """definition of var at the end of block p, looking through unique-predecessor chains"""
+    """definition of var at the end of block p, looking through unique-predecessor chains; where the chain ends at a join
+    (a loop head, typically) every definition reaching it is considered"""
     cur, upto = p, len(blocks[p]["s"])
     seen = set()
     for _ in range(limit):
@@ -220,6 +261,8 @@ def _scan_chain(blocks, pr, p, var, limit=12):
         var = r[1]
         seen.add(cur)
         ps = list(dict.fromkeys(pr[cur]))
+        if len(ps) >= 2:
+            return _reaching_known(blocks, pr, cur, var)
         if len(ps) != 1 or ps[0] in seen:
             return None
         q = ps[0]
